@@ -329,7 +329,8 @@ PROPS["C08"] = {
     "harness": [{"bin": "h_prim", "args": ["limiter"]}],
     "rule": ("cases = random operation sequences on the real pkg.SizeLimiter (limits 0,1,2,17,100,4096 x adds x resets) "
              "replayed on the Lean model; non-trivial = a limit flag went up during the case; distinct by generator draw. "
-             "(writer-level limit behaviour on real streams is exercised by the h_codec `limits` mode when present)"),
+             "(writer-level limit behaviour on real streams is exercised by the h_codec `limits` mode); h_hs: the options returned by "
+             "the real Client.Connect over loopback gRPC for generated schema pairs x advertised limits must carry the limit"),
     "trusted_base": COMMON_TB + [
         "Stef/Limiter.lean: SizeLimiter is a hand transcription tied op-for-op by h_prim limiter; the Write/Flush/restartFrame "
         "control flow is a hand transcription of stefc/templates/go/writer.go.tmpl at the level of sizes",
@@ -338,7 +339,9 @@ PROPS["C08"] = {
                     "frame bound excludes the per-frame size table, record count and byte rounding of bit columns"],
     "level_text": ("Theorems by invariant over all operation histories, limits and flags: dict_below_limit_between_writes, "
                    "dict_peak_bound (never exceeds L by what one record adds), reset_announced (reader and writer dictionary "
-                   "epochs agree for every record), frame_bound, open_frame_below_limit."),
+                   "epochs agree for every record), frame_bound, open_frame_below_limit; destination_limit_in_force (for every schema "
+                   "pair, the writer created from the options of a successful Connect runs with the limit the destination "
+                   "advertised; tied to the real Client.Connect / New<Root>Writer by h_hs)."),
 }
 
 PROPS["C14"] = {
@@ -480,6 +483,8 @@ PROPS["C07"] = {
 }
 
 PROPS["C08"]["harness"].append({"bin": "h_codec", "args": ["limits"]})
+# "a limit ... received from the destination": the real Client.Connect against a real StreamServer
+PROPS["C08"]["harness"].append({"bin": "h_hs", "args": []})
 PROPS["C03"]["harness"].append({"bin": "h_codec", "args": ["hostile"]})
 
 PROPS["C09"]["needs_gen"] = ["Funcs"]
